@@ -96,6 +96,14 @@ def fits(meter, labels):
 def build_content(content):
     if content is None:
         return None
+    if isinstance(content, dict):
+        # notes put in place one by one with nc[i] = Note: a container may then hold two notes that sound the
+        # same (C## next to D), which add_note would have folded into one
+        notes = content["set"]
+        nc = NoteContainer([Note("C", i) for i in range(len(notes))])
+        for i, n in enumerate(notes):
+            nc[i] = Note(n[0], n[1])
+        return nc
     return NoteContainer([Note(n[0], n[1]) for n in content])
 
 
@@ -680,6 +688,43 @@ def chord_bars(first):
                    "entries": [[chord, "4"], [None, "4"], [chord, "8"]]}
 
 
+UNISON_CHORDS = [
+    [["C##", 4], ["D", 4]],
+    [["C#", 4], ["Db", 4], ["F", 4]],
+    [["E", 4], ["G", 4], ["Fb", 4]],
+    [["B#", 3], ["C", 4], ["Dbb", 4]],
+    [["C", 4], ["C", 4]],
+    [["A", 4], ["E", 4], ["C", 4]],          # not in pitch order
+]
+
+
+def unison_bars(i):
+    """chords whose notes were set in place (nc[i] = Note): equal-sounding notes side by side, unsorted notes"""
+    chord = {"set": UNISON_CHORDS[i]}
+    for l in ("4", "8.", "4*3:2"):
+        yield {"key": "F", "meter": [4, 4], "showkey": True, "showtime": False, "entries": [[chord, l]]}
+    yield {"key": "F", "meter": [4, 4], "showkey": True, "showtime": False,
+           "entries": [[chord, "4"], [None, "4"], [chord, "8"], [[["D", 4]], "8"]]}
+    yield {"key": "F", "meter": [4, 4], "showkey": True, "showtime": False,
+           "entries": [[[["D", 4], ["F", 4]], "4"], [chord, "4"], [[["D", 4], ["F", 4]], "4"]]}
+
+
+# values whose lengths in quarter notes have the largest and the most unrelated denominators of the vocabulary
+# (512, 256, 48, 40, 56, 3, 5, 7, ...): every subset of 3-5 of them in one bar, so that the measure's divisions
+# must be a common multiple of many denominators at once (up to 512 * 105)
+DENOMINATOR_VALUES = ["128....", "128...", "64....", "128*3:2", "128*5:4", "128*7:4", "4*3:2", "4*5:4", "4*7:4", "32...."]
+
+
+def denominator_bars(first):
+    rest = DENOMINATOR_VALUES[first + 1:]
+    for k in (2, 3, 4):
+        for comb in itertools.combinations(rest, k):
+            seq = [DENOMINATOR_VALUES[first]] + list(comb)
+            for rot in (0, 1):
+                seq2 = seq[rot:] + seq[:rot]
+                yield bar_case("C", BIG_METER, [(CONTENT_ORDER[(i + rot) % 4], l) for i, l in enumerate(seq2)])
+
+
 def strip_flags(bc):
     return {"key": bc["key"], "meter": bc["meter"], "entries": bc["entries"]}
 
@@ -855,6 +900,8 @@ def explore(ctx):
         ctx.product("ly_bar", P.KEYS30, key_meter_bars)
         ctx.product("ly_bar", names, pitch_bars)
         ctx.product("ly_bar", range(len(NOTE_POOL)), chord_bars)
+        ctx.product("ly_bar", range(len(UNISON_CHORDS)), unison_bars)
+        ctx.product("ly_bar", range(len(DENOMINATOR_VALUES) - 2), denominator_bars)
     if ctx.want("ly_track"):
         zoo = zoo_bars()
         ctx.bound("track_zoo_bars", len(zoo))
@@ -893,6 +940,9 @@ def explore(ctx):
         ctx.product("xml_bar", P.KEYS30, lambda k: key_meter_bars(k, flags=False))
         ctx.product("xml_bar", names, pitch_bars)
         ctx.product("xml_bar", range(len(NOTE_POOL)), chord_bars)
+        ctx.product("xml_bar", range(len(UNISON_CHORDS)), unison_bars)
+        ctx.bound("xml_bar_denominators", "every subset of 3-5 of %s in one bar" % DENOMINATOR_VALUES)
+        ctx.product("xml_bar", range(len(DENOMINATOR_VALUES) - 2), denominator_bars)
     if ctx.want("xml_track"):
         ctx.product("xml_track", [(None, 3), ("Instrument", 2), ("Piano", 2), ("Guitar", 2), ("Midi", 2)] if q else
                     [(i, 3) for i in (None, "Instrument", "Piano", "Guitar", "Midi")], gen_xml_track)
